@@ -111,4 +111,11 @@ theorem C15_no_issue_twice (s : LState) (h : Coherent s) : s.errs.Nodup ∧ s.wa
   rw [h1, h2, h3]
   exact ⟨idx_nodup _ _, idx_nodup _ _, idx_nodup _ _⟩
 
+/-- C15-1d: after `removeAllIssues` every count is 0 and every accessor returns null, whatever was logged before -/
+theorem C15_removeAll_empty (s : LState) (i : Nat) :
+    issueCount (removeAll s) = 0 ∧ errorCount (removeAll s) = 0 ∧ warningCount (removeAll s) = 0 ∧
+    messageCount (removeAll s) = 0 ∧ errorAt (removeAll s) i = none ∧ warningAt (removeAll s) i = none ∧
+    messageAt (removeAll s) i = none := by
+  simp [removeAll, init, issueCount, errorCount, warningCount, messageCount, errorAt, warningAt, messageAt]
+
 end Cellml.Props.C15
